@@ -272,6 +272,59 @@ pub fn dial(port: u16) -> std::io::Result<tokio::net::TcpStream> {
     tokio::net::TcpStream::from_std(s)
 }
 
+/// Every relayed link of a run gets its own loopback address 127.(1+).x.y (all of 127/8 is local):
+/// the nodes' sessions name a connection by the peer's socket address, and ports are re-used by
+/// the kernel once a connection is gone, addresses chosen here are not.
+pub fn link_ip(g: u32) -> [u8; 4] {
+    [127, 1 + ((g >> 16) as u8 & 0x3f), (g >> 8) as u8, g as u8]
+}
+
+/// inverse of `link_ip` on a session's `peer_addr` ("127.1.0.5:4242" / "[::ffff:127.1.0.5]:4242")
+pub fn link_of(addr: &str) -> Option<u32> {
+    let i = addr.find("127.")?;
+    let rest = &addr[i..];
+    let end = rest.find(|c: char| !(c.is_ascii_digit() || c == '.')).unwrap_or(rest.len());
+    let parts: Vec<u32> = rest[..end].split('.').filter_map(|x| x.parse().ok()).collect();
+    if parts.len() != 4 || parts[1] == 0 {
+        return None;
+    }
+    Some(((parts[1] - 1) << 16) | (parts[2] << 8) | parts[3])
+}
+
+pub fn listen_on(ip: [u8; 4]) -> std::io::Result<(std::net::TcpListener, u16)> {
+    let l = std::net::TcpListener::bind((std::net::Ipv4Addr::from(ip), 0))?;
+    l.set_nonblocking(true)?;
+    let p = l.local_addr()?.port();
+    Ok((l, p))
+}
+
+/// Blocking connect from source address `ip` (port chosen by the OS) to 127.0.0.1:port.
+pub fn dial_from(ip: [u8; 4], port: u16) -> std::io::Result<tokio::net::TcpStream> {
+    use std::os::fd::FromRawFd;
+    unsafe {
+        let fd = libc::socket(libc::AF_INET, libc::SOCK_STREAM | libc::SOCK_CLOEXEC, 0);
+        if fd < 0 {
+            return Err(std::io::Error::last_os_error());
+        }
+        let s = std::net::TcpStream::from_raw_fd(fd); // closes on every error path
+        let mut a: libc::sockaddr_in = std::mem::zeroed();
+        a.sin_family = libc::AF_INET as libc::sa_family_t;
+        a.sin_addr.s_addr = u32::from_ne_bytes(ip);
+        a.sin_port = 0;
+        if libc::bind(fd, &a as *const _ as *const libc::sockaddr, std::mem::size_of::<libc::sockaddr_in>() as libc::socklen_t) != 0 {
+            return Err(std::io::Error::last_os_error());
+        }
+        a.sin_addr.s_addr = u32::from_ne_bytes([127, 0, 0, 1]);
+        a.sin_port = port.to_be();
+        if libc::connect(fd, &a as *const _ as *const libc::sockaddr, std::mem::size_of::<libc::sockaddr_in>() as libc::socklen_t) != 0 {
+            return Err(std::io::Error::last_os_error());
+        }
+        s.set_nodelay(true)?;
+        s.set_nonblocking(true)?;
+        tokio::net::TcpStream::from_std(s)
+    }
+}
+
 /// A harness-side listener on 127.0.0.1 with an OS-chosen port.
 pub fn listen() -> std::io::Result<(std::net::TcpListener, u16)> {
     let l = std::net::TcpListener::bind("127.0.0.1:0")?;
